@@ -91,11 +91,16 @@ struct HarnessResult {
     machinery: Option<String>,
     budget_hit: bool,
     per_bound: Vec<u64>,
+    points_vary: bool,
 }
 
-fn explore_instance<T: Bits>(name: &str, fft: Arc<dyn Fft<T>>, specs: &[ThreadSpec], max_bound: u32, max_exec: u64) -> HarnessResult {
+/// `fresh`: build a new instance for every execution (so that the very first calls on an instance race with each
+/// other: lazily initialised state); otherwise one warmed-up instance is shared by all executions.
+fn explore_instance<T: Bits>(name: &str, build: &(dyn Fn() -> Arc<dyn Fft<T>> + Sync), fresh: bool, specs: &[ThreadSpec], max_bound: u32, max_exec: u64) -> HarnessResult {
+    let fft = build();
     let n = fft.len();
     let shared = Arc::new(Shared(fft));
+    let current: Arc<Mutex<Arc<Shared<Arc<dyn Fft<T>>>>>> = Arc::new(Mutex::new(Arc::clone(&shared)));
     // expected: the same calls made alone, before any exploration (no scheduler on this thread => yield is a no-op)
     let inputs: Vec<Vec<Complex<T>>> = specs.iter().map(|s| mk_input::<T>(n, s.k, s.salt)).collect();
     let expected: Vec<(Vec<(u64, u64)>, Vec<(u64, u64)>)> = specs.iter().zip(&inputs).map(|(s, x)| do_call(shared.0.as_ref(), s.entry, x)).collect();
@@ -104,11 +109,13 @@ fn explore_instance<T: Bits>(name: &str, fft: Arc<dyn Fft<T>>, specs: &[ThreadSp
         for r in results.lock().unwrap().iter_mut() {
             *r = None;
         }
+        let inst = if fresh { Arc::new(Shared(build())) } else { Arc::clone(&shared) };
+        *current.lock().unwrap() = Arc::clone(&inst);
         specs
             .iter()
             .enumerate()
             .map(|(i, s)| {
-                let sh = Arc::clone(&shared);
+                let sh = Arc::clone(&inst);
                 let res = Arc::clone(&results);
                 let x = Shared(inputs[i].clone());
                 let e = s.entry;
@@ -152,45 +159,56 @@ fn explore_instance<T: Bits>(name: &str, fft: Arc<dyn Fft<T>>, specs: &[ThreadSp
             verdicts.push(check(&x).err());
         }
         if verdicts[0].is_none() || verdicts[0] != verdicts[1] {
-            return HarnessResult { name: name.into(), executions: r.executions, completed_bound: r.completed_bound, points: r.points_total, per_thread: r.per_thread_points, outcomes: r.distinct_outcomes, failure: None, machinery: Some(format!("failure '{}' did not replay deterministically: {:?}", msg, verdicts)), budget_hit: r.budget_hit, per_bound: r.executions_per_bound };
+            return HarnessResult { name: name.into(), executions: r.executions, completed_bound: r.completed_bound, points: r.points_total, per_thread: r.per_thread_points, outcomes: r.distinct_outcomes, failure: None, machinery: Some(format!("failure '{}' did not replay deterministically: {:?}", msg, verdicts)), budget_hit: r.budget_hit, per_bound: r.executions_per_bound, points_vary: r.points_vary };
         }
     }
     // no residue: the same calls made sequentially afterwards are again bit-identical
     if failure.is_none() {
         for (i, s) in specs.iter().enumerate() {
-            let again = do_call(shared.0.as_ref(), s.entry, &inputs[i]);
+            let last = Arc::clone(&current.lock().unwrap());
+            let again = do_call(last.0.as_ref(), s.entry, &inputs[i]);
             if again.0 != expected[i].0 {
                 failure = Some((vec![], format!("after the exploration a sequential call ({} k={}) no longer returns the bits of the first isolated call: the instance carries state", s.entry.name(), s.k)));
             }
         }
     }
-    HarnessResult { name: name.into(), executions: r.executions, completed_bound: r.completed_bound, points: r.points_total, per_thread: r.per_thread_points, outcomes: r.distinct_outcomes, failure, machinery: r.machinery_error, budget_hit: r.budget_hit, per_bound: r.executions_per_bound }
+    HarnessResult { name: name.into(), executions: r.executions, completed_bound: r.completed_bound, points: r.points_total, per_thread: r.per_thread_points, outcomes: r.distinct_outcomes, failure, machinery: r.machinery_error, budget_hit: r.budget_hit, per_bound: r.executions_per_bound, points_vary: r.points_vary }
 }
 
-fn yld_instances() -> Vec<(String, Arc<dyn Fft<Yld>>)> {
-    let d = FftDirection::Forward;
-    let i = FftDirection::Inverse;
-    let mut v: Vec<(String, Arc<dyn Fft<Yld>>)> = Vec::new();
-    let b2 = || Arc::new(Butterfly2::new(d)) as Arc<dyn Fft<Yld>>;
-    let b3 = || Arc::new(Butterfly3::new(d)) as Arc<dyn Fft<Yld>>;
-    let b4 = || Arc::new(Butterfly4::new(d)) as Arc<dyn Fft<Yld>>;
-    let b5 = || Arc::new(Butterfly5::new(d)) as Arc<dyn Fft<Yld>>;
-    let b8 = || Arc::new(Butterfly8::new(d)) as Arc<dyn Fft<Yld>>;
-    v.push(("Butterfly4".into(), b4()));
-    v.push(("Butterfly6(inv)".into(), Arc::new(Butterfly6::new(i))));
-    v.push(("Dft(3)".into(), Arc::new(Dft::new(3, d))));
-    v.push(("RadersAlgorithm(Butterfly4)".into(), Arc::new(RadersAlgorithm::new(b4()))));
-    v.push(("BluesteinsAlgorithm(3,Butterfly8)".into(), Arc::new(BluesteinsAlgorithm::new(3, b8()))));
-    v.push(("MixedRadixSmall(3,3)".into(), Arc::new(MixedRadixSmall::new(b3(), b3()))));
-    v.push(("MixedRadix(3,4)".into(), Arc::new(MixedRadix::new(b3(), b4()))));
-    v.push(("GoodThomasAlgorithm(3,4)".into(), Arc::new(GoodThomasAlgorithm::new(b3(), b4()))));
-    v.push(("GoodThomasAlgorithmSmall(3,5)".into(), Arc::new(GoodThomasAlgorithmSmall::new(b3(), b5()))));
-    v.push(("MixedRadix(Bluestein(3,B8),Butterfly2)".into(), Arc::new(MixedRadix::new(Arc::new(BluesteinsAlgorithm::new(3, b8())), b2()))));
-    v.push(("Radix3(9)".into(), Arc::new(Radix3::new(9, d))));
-    v.push(("Radix4(16)".into(), Arc::new(Radix4::new(16, d))));
-    let mut pl = FftPlanner::<Yld>::new();
-    for n in [10usize, 15, 36, 37, 64, 35 * 3] {
-        v.push((format!("planned(Yld,n={})", n), pl.plan_fft(n, if n % 2 == 0 { d } else { i })));
+type YldBuilder = Box<dyn Fn() -> Arc<dyn Fft<Yld>> + Send + Sync>;
+fn yld_instances() -> Vec<(String, YldBuilder)> {
+    const D: FftDirection = FftDirection::Forward;
+    const I: FftDirection = FftDirection::Inverse;
+    fn b2() -> Arc<dyn Fft<Yld>> {
+        Arc::new(Butterfly2::new(D))
+    }
+    fn b3() -> Arc<dyn Fft<Yld>> {
+        Arc::new(Butterfly3::new(D))
+    }
+    fn b4() -> Arc<dyn Fft<Yld>> {
+        Arc::new(Butterfly4::new(D))
+    }
+    fn b5() -> Arc<dyn Fft<Yld>> {
+        Arc::new(Butterfly5::new(D))
+    }
+    fn b8() -> Arc<dyn Fft<Yld>> {
+        Arc::new(Butterfly8::new(D))
+    }
+    let mut v: Vec<(String, YldBuilder)> = Vec::new();
+    v.push(("Butterfly4".into(), Box::new(|| b4())));
+    v.push(("Butterfly6(inv)".into(), Box::new(|| Arc::new(Butterfly6::new(I)))));
+    v.push(("Dft(3)".into(), Box::new(|| Arc::new(Dft::new(3, D)))));
+    v.push(("RadersAlgorithm(Butterfly4)".into(), Box::new(|| Arc::new(RadersAlgorithm::new(b4())))));
+    v.push(("BluesteinsAlgorithm(3,Butterfly8)".into(), Box::new(|| Arc::new(BluesteinsAlgorithm::new(3, b8())))));
+    v.push(("MixedRadixSmall(3,3)".into(), Box::new(|| Arc::new(MixedRadixSmall::new(b3(), b3())))));
+    v.push(("MixedRadix(3,4)".into(), Box::new(|| Arc::new(MixedRadix::new(b3(), b4())))));
+    v.push(("GoodThomasAlgorithm(3,4)".into(), Box::new(|| Arc::new(GoodThomasAlgorithm::new(b3(), b4())))));
+    v.push(("GoodThomasAlgorithmSmall(3,5)".into(), Box::new(|| Arc::new(GoodThomasAlgorithmSmall::new(b3(), b5())))));
+    v.push(("MixedRadix(Bluestein(3,B8),Butterfly2)".into(), Box::new(|| Arc::new(MixedRadix::new(Arc::new(BluesteinsAlgorithm::new(3, b8())), b2())))));
+    v.push(("Radix3(9)".into(), Box::new(|| Arc::new(Radix3::new(9, D)))));
+    v.push(("Radix4(16)".into(), Box::new(|| Arc::new(Radix4::new(16, D)))));
+    for n in [10usize, 15, 36, 37, 59, 64, 35 * 3] {
+        v.push((format!("planned(Yld,n={})", n), Box::new(move || FftPlanner::<Yld>::new().plan_fft(n, if n % 2 == 0 { D } else { I }))));
     }
     v
 }
@@ -226,17 +244,49 @@ fn history_check<T: Real>(pk: PK, n: usize, d: FftDirection, rep: &mut Report) {
     }
     rep.states += 1;
     let l = letters.len();
-    let mut run = |seq: &[usize], rep: &mut Report| {
+    // a "bad frame" (one NaN and one Inf sample): leaves non-finite garbage in every reused buffer
+    let bad: Vec<C<T>> = {
+        let mut v = dense_vec::<T>(n, 77);
+        if n > 0 {
+            v[0] = C::new(T::from64(f64::NAN), T::from64(1.0));
+            v[n / 2] = C::new(T::from64(f64::INFINITY), T::from64(-1.0));
+        }
+        v
+    };
+    // the caller keeps ONE scratch buffer per entry point and ONE output buffer for the whole history (never re-zeroed)
+    let z = C::new(T::from64(0.0), T::from64(0.0));
+    let mut scr: Vec<Vec<C<T>>> = Entry::ALL.iter().map(|e| vec![z; e.scratch_len(fft.as_ref())]).collect();
+    let mut outbuf: Vec<C<T>> = vec![z; 2 * n];
+    let mut run = |seq: &[usize], bad_first: bool, rep: &mut Report| {
+        if bad_first {
+            for (ei, e) in Entry::ALL.iter().enumerate() {
+                let mut data = bad.clone();
+                let _ = std::panic::catch_unwind(std::panic::AssertUnwindSafe(|| match e {
+                    Entry::Process => fft.process(&mut data),
+                    Entry::InPlace => fft.process_with_scratch(&mut data, &mut scr[ei]),
+                    Entry::OutOfPlace => fft.process_outofplace_with_scratch(&mut data, &mut outbuf[..n], &mut scr[ei]),
+                    Entry::Immut => fft.process_immutable_with_scratch(&data, &mut outbuf[..n], &mut scr[ei]),
+                }));
+            }
+        }
         for (pos, &li) in seq.iter().enumerate() {
             let (e, salt, k) = letters[li];
-            let co = call_plain(fft.as_ref(), e, &inputs[li]);
+            let ei = Entry::ALL.iter().position(|x| *x == e).unwrap();
+            let mut data = inputs[li].clone();
+            let res = std::panic::catch_unwind(std::panic::AssertUnwindSafe(|| match e {
+                Entry::Process => fft.process(&mut data),
+                Entry::InPlace => fft.process_with_scratch(&mut data, &mut scr[ei]),
+                Entry::OutOfPlace => fft.process_outofplace_with_scratch(&mut data, &mut outbuf[..k * n], &mut scr[ei]),
+                Entry::Immut => fft.process_immutable_with_scratch(&data, &mut outbuf[..k * n], &mut scr[ei]),
+            }));
             rep.transitions += 1;
-            let ok = co.out.as_ref().map(|o| same_bits(o, &expected[li])).unwrap_or(false);
+            let got: &[C<T>] = if e.has_output() { &outbuf[..k * n] } else { &data };
+            let ok = res.is_ok() && same_bits(got, &expected[li]);
             if !ok {
-                let s: Vec<String> = seq.iter().map(|&x| format!("{}:{}:k{}", letters[x].0.name(), letters[x].1, letters[x].2)).collect();
+                let sq: Vec<String> = seq.iter().map(|&x| format!("{}:{}:k{}", letters[x].0.name(), letters[x].1, letters[x].2)).collect();
                 rep.violate(
-                    format!("C11|part=history|pk={}|T={}|dir={}|n={}|seq={}|pos={}", pk.name(), T::NAME, dir_name(d), n, s.join(","), pos),
-                    format!("call {} of the history ({} input {} k={}) does not return the bits of the same call made first on a fresh instance", pos, e.name(), salt, k),
+                    format!("C11|part=history|pk={}|T={}|dir={}|n={}|seq={}{}|pos={}", pk.name(), T::NAME, dir_name(d), n, if bad_first { "badframe," } else { "" }, sq.join(","), pos),
+                    format!("call {} of the history ({} input {} k={}, buffers reused across calls{}) does not return the bits of the same call made first on a fresh instance with fresh buffers", pos, e.name(), salt, k, if bad_first { ", after a frame containing NaN/Inf" } else { "" }),
                     Json::Null,
                 );
             }
@@ -247,11 +297,12 @@ fn history_check<T: Real>(pk: PK, n: usize, d: FftDirection, rep: &mut Report) {
         }
     };
     for a in 0..l {
-        run(&[a], rep);
+        run(&[a], false, rep);
+        run(&[a], true, rep);
         for b in 0..l {
-            run(&[a, b], rep);
+            run(&[a, b], false, rep);
             for c in 0..l {
-                run(&[a, b, c], rep);
+                run(&[a, b, c], false, rep);
             }
         }
     }
@@ -350,7 +401,7 @@ pub fn run(ctx: &Ctx) -> i32 {
     let want = |name: &str| -> bool { only.as_ref().map(|k| k.contains(&format!("harness={}|", name)) || k.contains("part=history") || k.contains("part=send_sync")).unwrap_or(true) };
     // ---- schedule exploration
     enum Job {
-        Yld(String, Arc<dyn Fft<Yld>>),
+        Yld(String, YldBuilder),
         F32(String, PK, usize),
         F64(String, PK, usize),
     }
@@ -358,7 +409,7 @@ pub fn run(ctx: &Ctx) -> i32 {
     for (name, f) in yld_instances() {
         jobs.push(Shared(Job::Yld(name, f)));
     }
-    for pk in [PK::Sse, PK::Avx] {
+    for pk in [PK::Scalar, PK::Sse, PK::Avx] {
         for n in [8usize, 12, 37, 59, 72, 144, 1184] {
             jobs.push(Shared(Job::F32(format!("planned({},f32,n={})", pk.name(), n), pk, n)));
             jobs.push(Shared(Job::F64(format!("planned({},f64,n={})", pk.name(), n), pk, n)));
@@ -376,21 +427,25 @@ pub fn run(ctx: &Ctx) -> i32 {
                 if !want(name) {
                     return out;
                 }
-                out.push(explore_instance::<Yld>(name, Arc::clone(f), &specs2, t.pick(2, 3), budget_op));
+                // first calls on a fresh instance (lazily initialised state), then a warmed-up shared instance
+                out.push(explore_instance::<Yld>(&format!("{}#fresh", name), f.as_ref(), true, &specs2, t.pick(2, 3), budget_op));
+                out.push(explore_instance::<Yld>(name, f.as_ref(), false, &specs2, t.pick(1, 2), budget_op / 2));
                 if t == Tier::Thorough {
-                    out.push(explore_instance::<Yld>(&format!("{}#b", name), Arc::clone(f), &specs2b, 2, budget_op));
-                    out.push(explore_instance::<Yld>(&format!("{}#3threads", name), Arc::clone(f), &specs3, 1, budget_op));
+                    out.push(explore_instance::<Yld>(&format!("{}#b", name), f.as_ref(), true, &specs2b, 2, budget_op));
+                    out.push(explore_instance::<Yld>(&format!("{}#3threads", name), f.as_ref(), true, &specs3, 1, budget_op));
                 }
             }
             Job::F32(name, pk, n) => {
                 if !want(name) {
                     return out;
                 }
-                if let Some(mut pl) = AnyPlanner::<f32>::new(*pk) {
-                    let f = pl.plan(*n, FftDirection::Forward);
-                    out.push(explore_instance::<f32>(name, Arc::clone(&f), &specs2, t.pick(3, 6), budget_chunk));
+                let (pk, n) = (*pk, *n);
+                if AnyPlanner::<f32>::new(pk).is_some() {
+                    let b = move || -> Arc<dyn Fft<f32>> { AnyPlanner::<f32>::new(pk).unwrap().plan(n, FftDirection::Forward) };
+                    out.push(explore_instance::<f32>(&format!("{}#fresh", name), &b, true, &specs2, t.pick(3, 6), budget_chunk));
+                    out.push(explore_instance::<f32>(name, &b, false, &specs2b, t.pick(2, 4), budget_chunk / 2));
                     if t == Tier::Thorough {
-                        out.push(explore_instance::<f32>(&format!("{}#3threads", name), f, &specs3, 3, budget_chunk));
+                        out.push(explore_instance::<f32>(&format!("{}#3threads", name), &b, true, &specs3, 3, budget_chunk));
                     }
                 }
             }
@@ -398,11 +453,13 @@ pub fn run(ctx: &Ctx) -> i32 {
                 if !want(name) {
                     return out;
                 }
-                if let Some(mut pl) = AnyPlanner::<f64>::new(*pk) {
-                    let f = pl.plan(*n, FftDirection::Inverse);
-                    out.push(explore_instance::<f64>(name, Arc::clone(&f), &specs2b, t.pick(3, 6), budget_chunk));
+                let (pk, n) = (*pk, *n);
+                if AnyPlanner::<f64>::new(pk).is_some() {
+                    let b = move || -> Arc<dyn Fft<f64>> { AnyPlanner::<f64>::new(pk).unwrap().plan(n, FftDirection::Inverse) };
+                    out.push(explore_instance::<f64>(&format!("{}#fresh", name), &b, true, &specs2b, t.pick(3, 6), budget_chunk));
+                    out.push(explore_instance::<f64>(name, &b, false, &specs2, t.pick(2, 4), budget_chunk / 2));
                     if t == Tier::Thorough {
-                        out.push(explore_instance::<f64>(&format!("{}#3threads", name), f, &specs3, 3, budget_chunk));
+                        out.push(explore_instance::<f64>(&format!("{}#3threads", name), &b, true, &specs3, 3, budget_chunk));
                     }
                 }
             }
@@ -439,6 +496,7 @@ pub fn run(ctx: &Ctx) -> i32 {
                 .with("executions_per_bound", Json::Arr(hr.per_bound.iter().map(|p| Json::Int(*p as i64)).collect()))
                 .with("completed_preemption_bound", hr.completed_bound.map(|b| Json::Int(b as i64)).unwrap_or(Json::Null))
                 .with("budget_hit", hr.budget_hit)
+                .with("points_per_thread_vary_with_schedule", hr.points_vary)
                 .with("distinct_outcomes", hr.outcomes),
         );
     }
@@ -450,7 +508,7 @@ pub fn run(ctx: &Ctx) -> i32 {
     if only.as_ref().map(|k| k.contains("part=history")).unwrap_or(true) {
         let mut hjobs: Vec<(PK, usize, bool)> = Vec::new();
         for pk in PK::ALL {
-            for n in t.pick(vec![8usize, 37, 59, 72, 100], vec![8usize, 12, 30, 37, 59, 64, 72, 100, 144, 243, 1184]) {
+            for n in t.pick(vec![8usize, 37, 59, 72, 83, 100], vec![8usize, 12, 30, 37, 59, 64, 72, 83, 100, 144, 166, 243, 1019, 1184]) {
                 hjobs.push((pk, n, true));
                 hjobs.push((pk, n, false));
             }
@@ -475,7 +533,7 @@ pub fn run(ctx: &Ctx) -> i32 {
         probe(&mut rep);
     }
     source_scan(&mut rep);
-    rep.rule = "schedule part: one shared instance, 2 threads (3 in thorough) making different entry-point calls with different chunk counts and inputs on private buffers; every interleaving up to the completed preemption bound listed per harness (op-granular scheduling points for the portable code through the Yld element type, chunk-granular through hook H2 for SSE/AVX code); oracle: bit-identical to the same call made alone, input of the immutable call untouched, sequential call afterwards again bit-identical. history part: all call sequences of length <= 3 over the alphabet {4 entry points} x {2 inputs} x {k=1,2} (4368 sequences per instance) on one instance, each call bit-identical to the same call made first on a fresh instance. Send/Sync: probe crate. A harness is non-trivial if an execution has more than 2 scheduling points.".into();
+    rep.rule = "schedule part: one shared instance, 2 threads (3 in thorough) making different entry-point calls with different chunk counts and inputs on private buffers; every interleaving up to the completed preemption bound listed per harness (op-granular scheduling points for the portable code through the Yld element type, chunk-granular through hook H2 for SSE/AVX code); oracle: bit-identical to the same call made alone, input of the immutable call untouched, sequential call afterwards again bit-identical. history part: all call sequences of length <= 3 over the alphabet {4 entry points} x {2 inputs} x {k=1,2} (4368 sequences per instance, plus each letter after a 'bad frame' containing NaN/Inf through all entry points) on one instance with the caller's scratch and output buffers REUSED across the whole history, each call bit-identical to the same call made first on a fresh instance with fresh buffers. Send/Sync: probe crate. A harness is non-trivial if an execution has more than 2 scheduling points.".into();
     rep.exhaustive = true;
     rep.assumptions = vec![
         "state written and read with no scheduling point in between (e.g. a scratch cached inside an SSE/AVX leaf kernel) is invisible to the controlled scheduler; covered only by the source-scan note".into(),
